@@ -852,14 +852,14 @@ type failSpec struct {
 }
 
 var failKinds = []string{"errpipe", "assert", "exit", "exit_after_outs", "segv", "kill9", "kill_mrjob",
-	"trunc_outs", "no_outs", "missing_key", "wrong_type", "errpipe_exit0", "bad_stage_defs"}
+	"trunc_outs", "no_outs", "missing_key", "wrong_type", "errpipe_exit0", "bad_stage_defs", "bad_resource_type"}
 
 // kindFor: output-file manifestations do not exist for a Python stage (the
 // adapter writes _outs / _stage_defs); such a job gets a Python failure instead.
 func kindFor(fp *faultProgram, job, kind string, k int) string {
 	if st := fp.prog.Stage(fp.jobStage[job]); st != nil && st.SrcLang == "py" {
 		switch kind {
-		case "trunc_outs", "no_outs", "null_outs", "missing_key", "wrong_type", "bad_stage_defs", "exit_after_outs":
+		case "trunc_outs", "no_outs", "null_outs", "missing_key", "wrong_type", "bad_stage_defs", "bad_resource_type", "exit_after_outs":
 			return pyFailKinds[k%len(pyFailKinds)]
 		}
 	}
@@ -1282,6 +1282,19 @@ func init() {
 						}
 					}
 				}
+				// directed: resource keys of the wrong type in a split's chunk definitions
+				{
+					nsp := 0
+					for _, j := range fp.jobs {
+						if fp.jobPhase[j] == "split" && nsp < 2 {
+							if st := fp.prog.Stage(fp.jobStage[j]); st != nil && st.SrcLang == "comp" {
+								jobs = append(jobs, job{fp, idx, failSpec{Job: j, Fail: "bad_resource_type", Repeated: true}})
+								idx++
+								nsp++
+							}
+						}
+					}
+				}
 				// failing preflight calls: everything else in the pipeline,
 				// nested at any depth, depends on them
 				k := 0
@@ -1360,7 +1373,7 @@ func init() {
 			go func() {
 				defer wg.Done()
 				for jb := range ch {
-					if jb.fs.Fail == "bad_stage_defs" && jb.fp.jobPhase[jb.fs.Job] != "split" {
+					if (jb.fs.Fail == "bad_stage_defs" || jb.fs.Fail == "bad_resource_type") && jb.fp.jobPhase[jb.fs.Job] != "split" {
 						continue
 					}
 					if jb.fs.Fail == "no_outs" && jb.fp.jobPhase[jb.fs.Job] == "split" {
